@@ -337,6 +337,14 @@ def main(argv):
                 p = subprocess.Popen([sys.executable, '-m', 'vlib.runner', pid, '--shard', str(i), str(nshards),
                                       tier, out], cwd=HERE, stdout=log, stderr=subprocess.STDOUT)
                 procs.append((p, out, log))
+            # optional coverage-guided stage (vlib/fuzz.py) next to the random shards
+            fuzz = None
+            runs = getattr(mod, 'FUZZ_RUNS', 0)
+            if runs and os.path.isdir(os.path.join(HERE, '.deps', 'atheris')):
+                fout = os.path.join(work, 'fuzz.json')
+                flog = open(os.path.join(work, 'fuzz.log'), 'w')
+                fuzz = (subprocess.Popen([sys.executable, '-m', 'vlib.fuzz', pid, str(runs), str(seed), fout],
+                                         cwd=HERE, stdout=flog, stderr=subprocess.STDOUT), fout, flog)
             results = []
             for i, (p, out, log) in enumerate(procs):
                 rc = p.wait()
@@ -350,10 +358,33 @@ def main(argv):
                 else:
                     with open(out) as f:
                         results.append(json.load(f))
+            fuzz_note = 'not run (no FUZZ_RUNS for this property)' if not runs else \
+                'skipped: atheris is not installed under .deps (setup_cmd installs it from the offline wheelhouse)'
+            if fuzz is not None:
+                fp, fout, flog = fuzz
+                try:
+                    fp.wait(timeout=WALL_CAP['thorough'])
+                except subprocess.TimeoutExpired:
+                    fp.kill()
+                flog.close()
+                if os.path.exists(fout):
+                    with open(fout) as f:
+                        fr = json.load(f)
+                    fr['stats']['extra']['coverage_guided_inputs'] = fr.get('fuzz_inputs', 0)
+                    results.append(fr)
+                    fuzz_note = 'atheris/libFuzzer drove the same Hypothesis test through fuzz_one_input: %d inputs ' \
+                                'at %.0f exec/s' % (fr.get('fuzz_inputs', 0), fr.get('fuzz_exec_per_s', 0))
+                else:
+                    fuzz_note = 'coverage-guided stage produced no result (see DESIGN 7.1); ignored'
+            for r in results:
+                if 'stats' in r:
+                    r['stats']['extra'].setdefault('coverage_guided_stage', fuzz_note)
         finally:
             for p, _o, _l in procs:
                 if p.poll() is None:
                     p.kill()
+            if 'fuzz' in locals() and fuzz is not None and fuzz[0].poll() is None:
+                fuzz[0].kill()
             shutil.rmtree(work, ignore_errors=True)
 
     for r in results:
